@@ -260,6 +260,227 @@ Proof. intros Hwf Hne. unfold read_blocks, r_init. apply (run_items is [] [] Hwf
 
 End LevelB.
 
+(* ---------------------------------------------------------------- the reader with the repair of D6 *)
+
+(* the same statements for the repaired state machine, without any hypothesis on the bodies
+   of the branches: a branch is closed by the brace line that follows it whether or not it
+   has a command *)
+Section LevelBR.
+Variable top : str.
+Hypothesis Hargs : forall c, wf_cmd c = true ->
+  split_args true (print_args (cl_args (c_lay c)) (c_args c)) = c_args c.
+
+Lemma run_lines_r_app ks1 ks2 st :
+  run_lines_r true top (ks1 ++ ks2) st = bind (run_lines_r true top ks1 st) (run_lines_r true top ks2).
+Proof.
+  revert st. induction ks1 as [|k r IH]; intros st; [reflexivity|].
+  cbn [app run_lines_r]. destruct (step_r true top k st); cbn [bind]; auto.
+Qed.
+
+Lemma run_cmds_r body lg blk inb ifb ch out :
+  forallb wf_cmd body = true ->
+  run_lines_r true top (map cmd_kind_line body) (mkQ lg blk inb ifb ch out)
+  = Ok (mkQ lg (blk ++ denote_body top body) inb ifb ch out).
+Proof.
+  revert blk. induction body as [|c r IH]; intros blk Hwf.
+  - cbn. now rewrite app_nil_r.
+  - cbn [forallb] in Hwf. apply andb_true_iff in Hwf. destruct Hwf as [Hc Hr].
+    cbn [map run_lines_r]. unfold cmd_kind_line at 1. cbn [step_r].
+    rewrite (cmd_action top c Hc (Hargs c Hc)).
+    cbn [step_cmd_r bind q_logical q_block q_inbranch q_ifblock q_chain q_out].
+    rewrite (IH _ Hr). unfold denote_body. cbn [map]. now rewrite <- app_assoc.
+Qed.
+
+(* inside a branch the test  block or inBranch  holds whatever the block *)
+Lemma in_branch_open (blk : list action) : is_nil blk && negb true = false.
+Proof. apply andb_false_r. Qed.
+
+Lemma run_elifs_r elifs b ch out :
+  forallb wf_branch elifs = true ->
+  run_lines_r true top (elif_kinds elifs)
+    (mkQ (print_cond (b_cond b)) (denote_body top (b_body b)) true None ch out)
+  = Ok (mkQ (print_cond (b_cond (fst (elif_state top b ch elifs))))
+            (denote_body top (b_body (fst (elif_state top b ch elifs)))) true None
+            (snd (elif_state top b ch elifs)) out).
+Proof.
+  revert b ch. induction elifs as [|b' r IH]; intros b ch Hwf; [reflexivity|].
+  cbn [forallb] in Hwf. apply andb_true_iff in Hwf. destruct Hwf as [Hw1 Hw2].
+  unfold elif_kinds. cbn [flat_map]. fold (elif_kinds r).
+  cbn [app run_lines_r step_r]. unfold step_brace_r.
+  cbn [q_block q_logical q_inbranch q_ifblock q_chain q_out].
+  rewrite in_branch_open. cbn [bind q_block q_logical q_inbranch q_ifblock q_chain q_out].
+  rewrite run_lines_r_app.
+  unfold wf_branch in Hw1. rewrite !andb_true_iff in Hw1. destruct Hw1 as [[_ Hcm] _].
+  rewrite (run_cmds_r _ _ _ _ _ _ _ Hcm). cbn [bind app].
+  rewrite (IH b' _ Hw2). reflexivity.
+Qed.
+
+(* one whole chain, started between two items; its branches may be empty *)
+Lemma run_chain_r b0 elifs els cl U O :
+  wf_item (IChain b0 elifs els cl) = true ->
+  run_lines_r true top (item_kinds (IChain b0 elifs els cl)) (mkQ s_true U false None [] O)
+  = Ok (mkQ s_true [] false None [] (O ++ flushU U ++ [chain_lbb top (b0 :: elifs) els])).
+Proof.
+  cbn [wf_item]. rewrite !andb_true_iff. intros [[[Hb0 Hel] Hels] _].
+  cbn [item_kinds]. fold (elif_kinds elifs).
+  (* the if line *)
+  cbn [run_lines_r step_r]. cbn [bind].
+  assert (E1 : step_brace_r (LIf (print_cond (b_cond b0))) (mkQ s_true U false None [] O)
+               = mkQ (print_cond (b_cond b0)) [] true None [] (O ++ flushU U)).
+  { unfold step_brace_r. cbn [q_block q_logical q_inbranch q_ifblock q_chain q_out negb app].
+    destruct U; cbn; [now rewrite app_nil_r|reflexivity]. }
+  rewrite E1. clear E1.
+  rewrite !run_lines_r_app.
+  unfold wf_branch in Hb0. rewrite !andb_true_iff in Hb0. destruct Hb0 as [[_ Hcm0] _].
+  rewrite (run_cmds_r _ _ _ _ _ _ _ Hcm0). cbn [bind app].
+  rewrite run_lines_r_app, (run_elifs_r elifs b0 [] _ Hel). cbn [bind].
+  pose proof (elif_state_chain top b0 [] elifs) as Hch.
+  destruct (elif_state top b0 [] elifs) as [bl ch]. cbn [fst snd] in *.
+  unfold chain_lbb. cbn [app] in Hch. rewrite <- Hch. clear Hch.
+  destruct els as [[eb el]|].
+  - apply andb_true_iff in Hels. destruct Hels as [Hecm _].
+    cbn [app run_lines_r step_r]. unfold step_brace_r at 1.
+    cbn [q_block q_logical q_inbranch q_ifblock q_chain q_out]. rewrite in_branch_open.
+    cbn [bind q_block q_logical q_inbranch q_ifblock q_chain q_out].
+    rewrite run_lines_r_app, (run_cmds_r _ _ _ _ _ _ _ Hecm). cbn [bind app run_lines_r step_r].
+    unfold step_brace_r. cbn [q_block q_logical q_inbranch q_ifblock q_chain q_out].
+    rewrite in_branch_open. cbn [q_block q_logical q_inbranch q_ifblock q_chain q_out].
+    rewrite is_nil_app_cons. unfold branch_elems. rewrite <- !app_assoc. reflexivity.
+  - cbn [app run_lines_r step_r]. unfold step_brace_r.
+    cbn [q_block q_logical q_inbranch q_ifblock q_chain q_out]. rewrite in_branch_open.
+    cbn [q_block q_logical q_inbranch q_ifblock q_chain q_out].
+    rewrite is_nil_app_cons. unfold branch_elems. cbn [bind]. rewrite <- !app_assoc. reflexivity.
+Qed.
+
+(* the whole file *)
+Lemma run_items_r is U O :
+  wf_items is = true ->
+  bind (run_lines_r true top (items_kinds is) (mkQ s_true U false None [] O)) (fun st => Ok (finish_r st))
+  = Ok (O ++ compile top U is).
+Proof.
+  revert U O. induction is as [|i r IH]; intros U O Hwf.
+  - cbn. destruct U; reflexivity.
+  - cbn [wf_items forallb] in Hwf. apply andb_true_iff in Hwf. destruct Hwf as [Hw1 Hw2].
+    unfold items_kinds. cbn [flat_map]. fold (items_kinds r). rewrite run_lines_r_app.
+    destruct i as [c|b0 elifs els cl].
+    + cbn [item_kinds run_lines_r]. unfold cmd_kind_line. cbn [step_r].
+      cbn [wf_item] in Hw1. rewrite (cmd_action top c Hw1 (Hargs c Hw1)).
+      cbn [step_cmd_r bind q_logical q_block q_inbranch q_ifblock q_chain q_out].
+      rewrite (IH _ _ Hw2). reflexivity.
+    + rewrite (run_chain_r b0 elifs els cl U O Hw1). cbn [bind].
+      rewrite (IH _ _ Hw2). cbn [compile]. rewrite <- !app_assoc. reflexivity.
+Qed.
+
+Lemma read_blocks_r_items is :
+  wf_items is = true -> read_blocks_r true top (items_kinds is) = Ok (compile top [] is).
+Proof. intros Hwf. unfold read_blocks_r, q_init. apply (run_items_r is [] [] Hwf). Qed.
+
+End LevelBR.
+
+(* ---------------------------------------------------------------- the repair changes nothing else *)
+
+(* along the run of the repaired reader no brace line finds inBranch set and block empty:
+   no branch of the text, as it is read, is without a command *)
+Fixpoint no_empty_open (fx : bool) (top : str) (ks : list linekind) (q : rstate_r) : bool :=
+  match ks with
+  | [] => true
+  | k :: r =>
+      (match k with
+       | LCmd _ _ | LOther _ => true
+       | _ => negb (q_inbranch q && is_nil (q_block q))
+       end)
+      && match step_r fx top k q with Ok q' => no_empty_open fx top r q' | Err _ => true end
+  end.
+
+Definition ifb_of (o : option (list action)) : list action := match o with Some b => b | None => [] end.
+
+(* the two machines in step: the same variables, ifBlock None for the empty list *)
+Definition sim (st : rstate) (q : rstate_r) : Prop :=
+  r_logical st = q_logical q /\ r_block st = q_block q /\ r_ifblock st = ifb_of (q_ifblock q) /\
+  r_chain st = q_chain q /\ r_out st = q_out q /\ q_ifblock q <> Some [].
+
+Lemma sim_step_brace k st q :
+  sim st q -> q_inbranch q && is_nil (q_block q) = false ->
+  match k with LCmd _ _ | LOther _ => False | _ => True end ->
+  sim (step_brace k st) (step_brace_r k q).
+Proof.
+  destruct st as [lg blk ifb ch out]. destruct q as [lg' blk' inb o ch' out'].
+  unfold sim. cbn [r_logical r_block r_ifblock r_chain r_out q_logical q_block q_inbranch q_ifblock q_chain q_out].
+  intros (-> & -> & -> & -> & -> & Hn) Hg Hk.
+  destruct blk' as [|a blk'].
+  - (* nothing to close: then inBranch is not set *)
+    cbn [is_nil] in Hg. rewrite andb_true_r in Hg. subst inb.
+    unfold step_brace, step_brace_r.
+    cbn [r_logical r_block r_ifblock r_chain r_out q_logical q_block q_inbranch q_ifblock q_chain q_out is_nil negb andb].
+    destruct k as [c|c|x| |n a0|l]; try contradiction;
+      cbn [r_logical r_block r_ifblock r_chain r_out q_logical q_block q_inbranch q_ifblock q_chain q_out];
+      try (repeat split; auto; fail).
+    destruct (is_nil ch');
+      cbn [r_logical r_block r_ifblock r_chain r_out q_logical q_block q_inbranch q_ifblock q_chain q_out ifb_of];
+      repeat split; auto; discriminate.
+  - unfold step_brace, step_brace_r.
+    cbn [r_logical r_block r_ifblock r_chain r_out q_logical q_block q_inbranch q_ifblock q_chain q_out is_nil andb].
+    assert (Hif : is_nil (ifb_of o) = match o with Some _ => false | None => true end).
+    { destruct o as [[|b0 b]|]; cbn; auto. now elim Hn. }
+    destruct k as [c|c|[|]| |n a0|l]; try contradiction;
+      cbn [r_logical r_block r_ifblock r_chain r_out q_logical q_block q_inbranch q_ifblock q_chain q_out];
+      rewrite ?Hif;
+      try (destruct o as [b|];
+           cbn [r_logical r_block r_ifblock r_chain r_out q_logical q_block q_inbranch q_ifblock q_chain q_out ifb_of is_nil];
+           rewrite ?is_nil_app_cons;
+           cbn [r_logical r_block r_ifblock r_chain r_out q_logical q_block q_inbranch q_ifblock q_chain q_out ifb_of];
+           repeat split; auto; try discriminate; try (intros E; injection E as E; subst; now elim Hn); fail).
+Qed.
+
+Lemma sim_step_cmd r st q : sim st q ->
+  match step_cmd r st, step_cmd_r r q with
+  | Ok st', Ok q' => sim st' q' /\ q_inbranch q' = q_inbranch q
+  | Err a, Err b => a = b
+  | _, _ => False
+  end.
+Proof.
+  destruct st as [lg blk ifb ch out]. destruct q as [lg' blk' inb o ch' out'].
+  unfold sim. cbn [r_logical r_block r_ifblock r_chain r_out q_logical q_block q_inbranch q_ifblock q_chain q_out].
+  intros (-> & -> & -> & -> & -> & Hn).
+  destruct r; cbn; repeat split; auto.
+Qed.
+
+Lemma sim_finish st q : sim st q -> finish st = finish_r q.
+Proof.
+  destruct st as [lg blk ifb ch out]. destruct q as [lg' blk' inb o ch' out'].
+  unfold sim, finish, finish_r. cbn [r_logical r_block r_ifblock r_chain r_out q_logical q_block q_inbranch q_ifblock q_chain q_out].
+  intros (-> & -> & -> & -> & -> & _). reflexivity.
+Qed.
+
+Lemma sim_run fx top ks st q :
+  sim st q -> no_empty_open fx top ks q = true ->
+  bind (run_lines_r fx top ks q) (fun q' => Ok (finish_r q'))
+  = bind (run_lines fx top ks st) (fun st' => Ok (finish st')).
+Proof.
+  revert st q. induction ks as [|k r IH]; intros st q Hs Hg.
+  - cbn. now rewrite (sim_finish st q Hs).
+  - cbn [no_empty_open] in Hg. apply andb_true_iff in Hg. destruct Hg as [G1 G2].
+    cbn [run_lines run_lines_r].
+    destruct k as [c|c|x| |n a0|l].
+    1-4: (cbn [step step_r bind] in *; apply negb_true_iff in G1;
+          apply IH; [apply sim_step_brace; auto; exact I|exact G2]).
+    + cbn [step step_r] in *. pose proof (sim_step_cmd (mk_action fx top n a0) st q Hs) as H.
+      destruct (step_cmd (mk_action fx top n a0) st) as [st'|e1], (step_cmd_r (mk_action fx top n a0) q) as [q'|e2];
+        cbn [bind]; try contradiction; [|now subst]. destruct H as [H _]. now apply IH.
+    + cbn [step step_r] in *. pose proof (sim_step_cmd (mk_action_other top l) st q Hs) as H.
+      destruct (step_cmd (mk_action_other top l) st) as [st'|e1], (step_cmd_r (mk_action_other top l) q) as [q'|e2];
+        cbn [bind]; try contradiction; [|now subst]. destruct H as [H _]. now apply IH.
+Qed.
+
+(* on classified lines of any kind (stray braces included): where no branch is empty the
+   repaired reader builds what the reader before the repair builds *)
+Lemma repair_conservative_lines fx top ks :
+  no_empty_open fx top ks q_init = true -> read_blocks_r fx top ks = read_blocks fx top ks.
+Proof.
+  intros H. unfold read_blocks_r, read_blocks. apply sim_run; [|exact H].
+  unfold sim, r_init, q_init. cbn. repeat split; auto. discriminate.
+Qed.
+
 (* ---------------------------------------------------------------- Table.actions *)
 
 Section Select.
